@@ -6,6 +6,11 @@ recycled; a segment is left by the consumer only after all `segSize` slots were 
 Segments are numbered in allocation order, segment 0 is the one the constructor allocates.
 `segSize` is the Go constant `segmentSize` (passed in by the case, checked by the harness against
 the real constant).
+
+GHOST state (not in the Go code, written but never read by any step, invisible to the tie): every
+segment records whether it has been linked into the list (`linked`) and its position in the list
+(`ord`), and `last` names the last linked segment.  The proofs use them to speak about the global
+order of the slots (`ord * segSize + idx`).
 -/
 import GoaktVerif.Model.C04.Core
 
@@ -17,6 +22,8 @@ structure Seg where
   deqIdx : Nat
   next : Option Nat
   data : Nat → Option Nat
+  linked : Bool := false     -- ghost
+  ord : Nat := 0             -- ghost
 
 def Seg.zero : Seg := { writeIdx := 0, deqIdx := 0, next := none, data := fun _ => none }
 
@@ -27,12 +34,19 @@ structure Sh where
   head : Nat
   tail : Nat
   length : Int
+  last : Nat := 0            -- ghost: the last linked segment
 
 def Sh.upd (s : Sh) (i : Nat) (f : Seg → Seg) : Sh :=
   { s with segs := fun j => if j = i then f (s.segs i) else s.segs j }
 
 /-- `newSegment()`: a fresh zeroed segment -/
 def Sh.alloc (s : Sh) : Sh × Nat := ({ s with nseg := s.nseg + 1 }, s.nseg)
+
+/-- successful `CAS(tail.next, nil, g)`: `t.next := g`; ghost: `g` becomes the last linked segment, one
+position after `t` -/
+def Sh.link (s : Sh) (t g : Nat) : Sh :=
+  let o := (s.segs t).ord
+  { ((s.upd t fun x => { x with next := some g }).upd g fun x => { x with linked := true, ord := o + 1 }) with last := g }
 
 inductive PC where
   | e1 (v : Nat)                 -- Enqueue: `Load:tail`
@@ -91,7 +105,7 @@ def exec (s : Sh) : PC → Sh × Next PC
     | some nx => (s, .goto (.e9 v t nx))
     | none => let r := s.alloc; (r.1, .goto (.e6 v t r.2))
   | .e6 v t g =>
-    if (s.segs t).next = none then (s.upd t fun x => { x with next := some g }, .goto (.e7 v t g))
+    if (s.segs t).next = none then (s.link t g, .goto (.e7 v t g))
     else (s, .goto (.e1 v))
   | .e7 v t g => (if s.tail = t then { s with tail := g } else s, .goto (.e1 v))
   | .e9 v t nx => (if s.tail = t then { s with tail := nx } else s, .goto (.e1 v))
@@ -121,7 +135,8 @@ def exec (s : Sh) : PC → Sh × Next PC
   | .l1 => (s, .ret (.num s.length))
 
 def init (segSize : Nat) : Sh :=
-  { segSize, segs := fun _ => Seg.zero, nseg := 1, head := 0, tail := 0, length := 0 }
+  { segSize, segs := fun g => if g = 0 then { Seg.zero with linked := true } else Seg.zero,
+    nseg := 1, head := 0, tail := 0, length := 0 }
 
 @[reducible] def algo : Algo := { Sh, PC, start, label, exec }
 
